@@ -148,13 +148,25 @@ def run(ck: Check) -> None:
             ck.violation("a conversion path among bytes / hex / key objects does not return the same value", {"seed": seed.hex()}, "conversion-roundtrip")
     # key files
     d = impl.scratch_dir()
-    for i in range(5):
-        name = os.path.join(d, "keytest%d" % i)
-        priv, pub = impl.metadata_construction.gen_and_write_keys(name) if hasattr(impl, "metadata_construction") else (None, None)
-        if priv is None:
-            from conda_content_trust import metadata_construction as mc
-            priv, pub = mc.gen_and_write_keys(name)
-        p2, pub2 = impl.common.keyfiles_to_keys(name)
+    for i in range(12):
+        name = os.path.join(d, "keytest%d" % (i % 4))       # names are reused: later rounds write over the files of earlier ones
+        prior = "fresh"
+        if i % 3 == 1:
+            # files of that name already exist and are longer (a hex-encoded key file, as the CLI reads) or shorter
+            prior = rng.choice(["hex-65", "long", "short", "empty"])
+            content = {"hex-65": os.urandom(32).hex().encode() + b"\n", "long": os.urandom(100), "short": b"abc", "empty": b""}[prior]
+            for ext in (".pri", ".pub"):
+                with open(name + ext, "wb") as f:
+                    f.write(content)
+        ck.count("keyfiles:" + prior)
+        try:
+            priv, pub = impl.metadata_construction.gen_and_write_keys(name)
+            p2, pub2 = impl.common.keyfiles_to_keys(name)
+        except Exception as e:  # noqa: BLE001
+            ck.oracle_checks += 1
+            ck.evaluations += 1
+            ck.violation("keys written to key files do not load back (writing or loading raised)", {"prior_files": prior, "error": repr(e)[:200]}, "keyfiles-raised:" + type(e).__name__)
+            continue
         ck.oracle_checks += 1
         ck.evaluations += 1
         if not (P.is_equivalent_to(priv, p2) and Pub.is_equivalent_to(pub, pub2) and Pub.to_bytes(p2.public_key()) == Pub.to_bytes(pub2)
